@@ -224,6 +224,29 @@ theorem translucent_within_one (c a : Nat) (hc : c < 256) (ha : a < 256) (ha0 : 
     c ≤ (toRGB ⟨c * 257 * a / 255, 0, 0, a * 257⟩).r + 1 :=
   toRGB_within_one c a hc ha ha0
 
+/-- The same for all three channels of a straight-alpha `color.NRGBA` pixel as `toRGB` sees it. -/
+theorem translucent_within_one_nrgba (r g b a : Nat) (hr : r < 256) (hg : g < 256) (hb : b < 256)
+    (ha : a < 256) (ha0 : 0 < a) :
+    let c := toRGB (.ofQuad (nrgbaRGBA r g b a))
+    (c.r ≤ r ∧ r ≤ c.r + 1) ∧ (c.g ≤ g ∧ g ≤ c.g + 1) ∧ (c.b ≤ b ∧ b ≤ c.b + 1) := by
+  have hne : a * 257 ≠ 0 := by omega
+  have key (x : Nat) : (toRGB ⟨x, 0, 0, a * 257⟩).r = u8 (u32 (x * 255) / (a * 257)) := by
+    rw [toRGB_of_ne _ hne]
+  have h1 := toRGB_within_one r a hr ha ha0
+  have h2 := toRGB_within_one g a hg ha ha0
+  have h3 := toRGB_within_one b a hb ha ha0
+  rw [key] at h1 h2 h3
+  have e : toRGB (.ofQuad (nrgbaRGBA r g b a)) =
+      ⟨u8 (u32 (r * 257 * a / 255 * 255) / (a * 257)), u8 (u32 (g * 257 * a / 255 * 255) / (a * 257)),
+       u8 (u32 (b * 257 * a / 255 * 255) / (a * 257)), u8 (a * 257 / 256)⟩ :=
+    toRGB_of_ne (.ofQuad (nrgbaRGBA r g b a)) hne
+  intro c
+  have hc : c = toRGB (.ofQuad (nrgbaRGBA r g b a)) := rfl
+  rw [hc, e]
+  exact ⟨h1, h2, h3⟩
+
+example : toRGB (.ofQuad (nrgbaRGBA 200 100 50 128)) = ⟨199, 99, 49, 128⟩ := by decide
+
 /-- **Half-block cell of two opaque pixels**: upper half block, foreground exactly the top pixel's
     colour, background exactly the bottom pixel's colour (as direct colours `0x02RRGGBB`). -/
 theorem opaque_exact_half (tr tg tb br bg bb : Nat)
